@@ -9,6 +9,7 @@ def missId : Nat := 999999
 
 instance : Inhabited Err := ⟨.mk 0 []⟩
 instance : Inhabited Expr := ⟨.atom .ruleBase⟩
+instance : Inhabited Ty := ⟨.ruleBase⟩
 
 partial def errOfJson (j : Json) : Err :=
   .mk (nat! (fld j "e")) ((arr! (fld j "sub")).map errOfJson)
@@ -37,19 +38,46 @@ def atomOf (kinds : List String) (i : Nat) : Ty :=
   | "rulebase" => .ruleBase
   | _ => .cls i
 
-partial def exprOfJson (kinds : List String) (built : List Ty) (j : Json) : Expr :=
+mutual
+/-- JSON expression → model expression; a classmethod call (`any_of` …) is evaluated on the spot with
+`combine` and embedded as an atom.  State: next free serial.  `none` = does not reach utype. -/
+partial def exprOfJson (kinds : List String) (built : List Ty) (j : Json) (uid : Nat) : Option (Expr × Nat) :=
   match obj? j "atom" with
-  | some i => .atom (atomOf kinds (nat! i))
+  | some i => some (.atom (atomOf kinds (nat! i)), uid)
   | none =>
   match obj? j "ref" with
-  | some k => .atom (built.getD (nat! k) .ruleBase)
+  | some k => some (.atom (built.getD (nat! k) .ruleBase), uid)
   | none =>
   match obj? j "bin" with
-  | some op => .bin (combOfStr (str! op)) (exprOfJson kinds built (fld j "l")) (exprOfJson kinds built (fld j "r"))
+  | some op =>
+    match exprOfJson kinds built (fld j "l") uid with
+    | none => none
+    | some (l, u1) =>
+      match exprOfJson kinds built (fld j "r") u1 with
+      | none => none
+      | some (r, u2) => some (.bin (combOfStr (str! op)) l r, u2)
   | none =>
   match obj? j "inv" with
-  | some e => .inv (exprOfJson kinds built e)
-  | none => .call (combOfStr (str! (fld j "call"))) ((arr! (fld j "args")).map (exprOfJson kinds built))
+  | some e =>
+    match exprOfJson kinds built e uid with
+    | none => none
+    | some (x, u1) => some (.inv x, u1)
+  | none =>
+    let step (st : Option (List Ty × Nat)) (a : Json) : Option (List Ty × Nat) :=
+      match st with
+      | none => none
+      | some (ts, u) =>
+        match evalJson kinds built a u with
+        | none => none
+        | some (t, u') => some (ts ++ [t], u')
+    match (arr! (fld j "args")).foldl step (some ([], uid)) with
+    | none => none
+    | some (ts, u1) => some (.atom (combine (combOfStr (str! (fld j "call"))) u1 ts), u1 + stride)
+partial def evalJson (kinds : List String) (built : List Ty) (j : Json) (uid : Nat) : Option (Ty × Nat) :=
+  match exprOfJson kinds built j uid with
+  | none => none
+  | some (e, u1) => build e u1
+end
 
 partial def structToJson : Ty → Json
   | .cls i | .rule i | .dc i => Json.mkObj [("leaf", Json.num i)]
@@ -73,7 +101,7 @@ def handle (j : Json) : Json :=
     match st with
     | none => none
     | some (built, uid) =>
-      match build (exprOfJson kinds built d) uid with
+      match evalJson kinds built d uid with
       | none => none
       | some (t, u) => some (built ++ [t], u)
   match (arr! (fld j "defs")).foldl step (some ([], 1)) with
